@@ -26,7 +26,7 @@ func (c15) ID() string { return "C15" }
 
 func (c15) Rule() string {
 	return "each run: seeded tree (regular strings; 0..n stack-carrying layers of the library and of pkg/errors, multi-cause nodes, trees without any stack), observed locally and after " +
-		"each of 1..4 hops between knowing processes (where stacks are re-parsed from text); oracle recomputed from public accessors over an independent pre-order walk: message prefix " +
+		"each of 1..4 hops between processes of which some may not know all types (stacks are re-parsed from text); the 'error types' lines equal those at the origin, the module is the domain of the outermost domain layer; oracle recomputed from public accessors over an independent pre-order walk: message prefix " +
 		"(one-line source = most recent frame of the innermost stack on the single-cause spine + redacted verbose rendering), an exception for every live StackTrace() layer (application-defined type included), " +
 		"in 1/3 of the deliveries the received error re-wrapped by the relay with a live stack (mixed live/re-parsed chain), one composition line per layer, one exception per stack-carrying layer (outermost first, frames deep-equal, domain as module; " +
 		"one synthetic exception when none), one 'error types' line per layer; nil gives nothing; distinct = (constructor-shape signature x route length); non-trivial = >= 2 layers"
